@@ -392,3 +392,94 @@ Arguments thread_initial {T}.
 Arguments ginit {T}.
 Arguments finals {T}.
 Arguments observed {T}.
+
+(* ------------------------------------------------------------------ Part 2c: context-aware template functions *)
+
+(* A Render call is (template, data, ctx).  Go (pugjs/tpl_exec.go): the context is a field of
+   the per-call state,
+
+     state := &state{tmpl: t, ctx: reflect.ValueOf(ctx), ...}
+
+   and (pugjs/tpl_funcs.go, findFunction) a template function registered through
+   Engine.FuncProvider has the type func(context.Context) interface{}: EVERY time a template
+   names it, the shared table common.execFuncs is read (under muFuncs.RLock) and the entry is
+   bound to the context of the render that is executing:
+
+     if fn.Type() == ctxFuncType { fn = fn.Call([]reflect.Value{s.ctx})[0].Elem() }
+
+   Model: a provider maps a context to the function to call; a bound function is
+   [g c] and is represented by the context [c] it was bound to.  [cstep false] is the code as
+   it is (bind per use, nothing shared is written).  [cstep true] is the same engine with the
+   bound functions remembered in the SHARED template set, keyed by the context that used them
+   last: decide (read section) / call the provider outside any lock / store (write section).
+   It is here only to show that the theorem about [cstep false] is not vacuous: with a memo
+   in the shared state the statement is false (Proofs/SchedProofs.v, ctx_memo_refuted). *)
+
+Definition provider := Z -> Z -> Z.            (* context -> argument -> result *)
+
+Record cshared := mkCS {
+  cs_funcs : list (bytes * provider);          (* common.execFuncs *)
+  cs_owner : option Z;                         (* memo variant only: whose bindings are stored *)
+  cs_bound : list (bytes * Z);                 (* memo variant only: name -> context it was bound to *)
+}.
+
+Inductive cpc :=
+| CRun (code : list bytes)                               (* the functions the template still calls *)
+| CBind (f : bytes) (rebind : bool) (rest : list bytes)  (* memo variant: inside f's provider, decision taken *)
+| CEnd
+| CFail.                                                 (* unknown function: execution error *)
+
+Record cstate := mkC { c_ctx : Z; c_acc : Z; c_pc : cpc }.
+
+Definition owner_is (c : Z) (o : option Z) : bool :=
+  match o with Some c' => Z.eqb c c' | None => false end.
+
+Definition cstep (memo : bool) (h : cshared) (r : cstate) : option (cshared * cstate) :=
+  match c_pc r with
+  | CRun [] => Some (h, mkC (c_ctx r) (c_acc r) CEnd)
+  | CRun (f :: rest) =>
+    match lookup f (cs_funcs h) with
+    | None => Some (h, mkC (c_ctx r) (c_acc r) CFail)
+    | Some g =>
+      if memo then
+        let rebind := negb (owner_is (c_ctx r) (cs_owner h)) in
+        match lookup f (cs_bound h) with
+        | Some c =>
+          if rebind then Some (h, mkC (c_ctx r) (c_acc r) (CBind f rebind rest))
+          else Some (h, mkC (c_ctx r) (g c (c_acc r)) (CRun rest))       (* a hit: the stored binding *)
+        | None => Some (h, mkC (c_ctx r) (c_acc r) (CBind f rebind rest))
+        end
+      else Some (h, mkC (c_ctx r) (g (c_ctx r) (c_acc r)) (CRun rest))   (* bound to the caller's context *)
+    end
+  | CBind f rebind rest =>
+    match lookup f (cs_funcs h) with
+    | None => Some (h, mkC (c_ctx r) (c_acc r) CFail)
+    | Some g =>
+      Some (if memo
+            then (if rebind then mkCS (cs_funcs h) (Some (c_ctx r)) [(f, c_ctx r)]
+                  else mkCS (cs_funcs h) (cs_owner h) ((f, c_ctx r) :: cs_bound h))
+            else h,                                                      (* unreachable without the memo *)
+            mkC (c_ctx r) (g (c_ctx r) (c_acc r)) (CRun rest))
+    end
+  | CEnd | CFail => None
+  end.
+
+(* S: what a render whose context is [c] must compute, whoever else is rendering *)
+Fixpoint cspec (funcs : list (bytes * provider)) (c : Z) (code : list bytes) (a : Z) : option Z :=
+  match code with
+  | [] => Some a
+  | f :: rest =>
+    match lookup f funcs with
+    | Some g => cspec funcs c rest (g c a)
+    | None => None
+    end
+  end.
+
+Definition cresult (r : cstate) : option (option Z) :=
+  match c_pc r with
+  | CEnd => Some (Some (c_acc r))
+  | CFail => Some None
+  | _ => None
+  end.
+
+Definition new_crender (c : Z) (code : list bytes) : cstate := mkC c 0%Z (CRun code).
